@@ -23,7 +23,9 @@ From stdpp Require Import gmap list.
 Local Open Scope Z_scope.
 
 (* Union / Intersect / SetDiff / SymDiff ([set_bin]: ∪, ∩, ∖, (X∖Y)∪(Y∖X)) return
-   exactly the set-algebra result as a new well-formed set; both operands keep
+   exactly the set-algebra result in a well-formed result value (a separate value
+   of the model: that the real result shares no memory with the operands is
+   checked by the harness only, a value model cannot say it); both operands keep
    their membership. All four pairings, every visit order. *)
 Theorem C03_binary_ops : ∀ (o : binop) (a b : anyset) (oa ob : list Z),
   wf_set a → wf_set b → covers (abs a) oa → covers (abs b) ob →
@@ -95,7 +97,9 @@ Theorem C03_range : ∀ (a : anyset) (order : list Z), wf_set a →
 Proof. exact range_spec. Qed.
 Print Assumptions C03_range.
 
-(* Clone: a new well-formed set with the same members. *)
+(* Clone: a well-formed result value with the same members (no shared memory: harness only).
+   a and b above, and receiver and argument everywhere, are two different objects:
+   a.Union(a) etc. are outside these theorems (direct oracle only). *)
 Theorem C03_clone : ∀ (a : anyset) (order : list Z), wf_set a → covers (abs a) order →
   ∃ a' c, as_Clone a order = Ok (a', c) ∧ wf_set a' ∧ abs a' = abs a ∧ wf_set c ∧ abs c = abs a.
 Proof. exact (as_Clone_spec WF seq_ok_WF). Qed.
